@@ -4,7 +4,7 @@
 //! input line:  cap=<n> mt=<n|0> rmin=<ms> rmax=<ms> | <step> ...
 //!   env:<refuse|close|garbage|silent|serve>   how the peer treats connections from now on
 //!                                             (refuse = nothing listens on the port)
-//!   E D X                                     Channel::enable / disable / shutdown
+//!   E D X L                                   Channel::enable / disable / shutdown / set_decode_level
 //!   H                                         drop the (only) handle
 //!   S:<id>:<timeout_ms>                       read_holding_registers in a spawned task (completion class is logged)
 //!   hold:<n>                                  the n-th listener notification (1-based) blocks the task until `go`
@@ -13,7 +13,7 @@
 //!   waitc:<n>                                 wait until n requests have completed
 //!   done                                      wait until the channel task has ended (every handle then reports shutdown)
 //!   sleep:<ms>                                let real time pass (only used for "nothing more happens" checks)
-//! output line: <listener log>|<completions c<id>:<class> sorted>|<accepts>|<TIMEOUT at step k, if a wait did not finish>
+//! output line: <listener log>|<completions c<id>:<class> sorted>|<done|live>|<accepts>|<TIMEOUT at step k, if a wait did not finish>|<ms between consecutive notifications>
 use std::collections::HashMap;
 use std::net::SocketAddr;
 use std::sync::{Arc, Mutex};
@@ -26,6 +26,8 @@ use tokio::io::{AsyncReadExt, AsyncWriteExt};
 #[derive(Default)]
 struct Shared {
     listener: Vec<String>,
+    /// when each notification was made
+    stamps: Vec<std::time::Instant>,
     completions: Vec<(u32, String)>,
     accepts: usize,
     hold_at: Option<usize>,
@@ -55,6 +57,7 @@ impl Listener<ClientState> for Gate {
         let hold = {
             let mut c = self.ctl.lock().unwrap();
             c.listener.push(name(value));
+            c.stamps.push(std::time::Instant::now());
             if c.hold_at == Some(c.listener.len()) {
                 c.hold_at = None;
                 true
@@ -143,7 +146,7 @@ async fn wait_until<F: Fn(&Shared) -> bool>(ctl: &Ctl, f: F) -> bool {
     false
 }
 
-async fn run_case(line: &str) -> String {
+async fn run_case(line: &str, case_no: usize) -> String {
     let (cfg, script) = line.split_once('|').expect("case needs a '|'");
     let mut kv: HashMap<&str, u64> = HashMap::new();
     for t in cfg.split_whitespace() {
@@ -152,10 +155,19 @@ async fn run_case(line: &str) -> String {
     }
     let ctl: Ctl = Arc::new(Mutex::new(Shared::default()));
     ctl.lock().unwrap().mode = "refuse".into();
-    // pick a free port, then release it: nothing listens until the script says so
-    let probe = std::net::TcpListener::bind("127.0.0.1:0").unwrap();
-    let addr: SocketAddr = probe.local_addr().unwrap();
-    drop(probe);
+    // a port of our own, OUTSIDE the ephemeral range (so that nobody else - other shards of this check, other checks'
+    // `bind(0)` sockets, outgoing connections - can own it while the script wants connects to be refused): one block
+    // of 20 ports per process, probed once; nothing listens until the script says so
+    let mut addr: SocketAddr = "127.0.0.1:1".parse().unwrap();
+    for k in 0..20u32 {
+        let port = 10000 + (std::process::id() % 1000) * 20 + ((case_no as u32 + k) % 20);
+        let cand: SocketAddr = format!("127.0.0.1:{port}").parse().unwrap();
+        if let Ok(probe) = std::net::TcpListener::bind(cand) {
+            drop(probe);
+            addr = cand;
+            break;
+        }
+    }
     let release = Arc::new(tokio::sync::Notify::new());
     let options = ClientOptions::default()
         .decode_level(DecodeLevel::nothing())
@@ -195,11 +207,12 @@ async fn run_case(line: &str) -> String {
                 }
                 true
             }
-            "E" | "D" | "X" => {
+            "E" | "D" | "X" | "L" => {
                 if let Some(ch) = channel.as_ref() {
                     let _ = match p[0] {
                         "E" => ch.enable().await,
                         "D" => ch.disable().await,
+                        "L" => ch.set_decode_level(DecodeLevel::nothing()).await,
                         _ => ch.shutdown().await,
                     };
                 }
@@ -218,6 +231,10 @@ async fn run_case(line: &str) -> String {
                         let r = ch.read_holding_registers(param, AddressRange::try_from(id as u16, 1).unwrap()).await;
                         ctl2.lock().unwrap().completions.push((id, class(&r).to_string()));
                     });
+                    // let the spawned call reach the queue before the script goes on (keeps the script order)
+                    for _ in 0..4 {
+                        tokio::task::yield_now().await;
+                    }
                 }
                 true
             }
@@ -277,23 +294,26 @@ async fn run_case(line: &str) -> String {
     let c = ctl.lock().unwrap();
     let mut comps = c.completions.clone();
     comps.sort();
+    // milliseconds between consecutive notifications (for lower bounds on announced delays only)
+    let gaps: Vec<String> = c.stamps.windows(2).map(|w| (w[1] - w[0]).as_millis().to_string()).collect();
     format!(
-        "{}|{}|{}{}|{}|{}",
+        "{}|{}|{}{}|{}|{}|{}",
         c.listener.join(" "),
         comps.iter().map(|(i, s)| format!("c{i}:{s}")).collect::<Vec<_>>().join(" "),
         if done { "done" } else { "live" },
         after,
         c.accepts,
-        failed.unwrap_or_default()
+        failed.unwrap_or_default(),
+        gaps.join(" ")
     )
 }
 
 pub fn main(_args: &[String]) -> i32 {
     crate::util::quiet_panics();
-    for line in crate::util::stdin_lines() {
+    for (case_no, line) in crate::util::stdin_lines().enumerate() {
         let res = std::panic::catch_unwind(move || {
             let rt = tokio::runtime::Builder::new_current_thread().enable_all().build().unwrap();
-            let out = rt.block_on(run_case(&line));
+            let out = rt.block_on(run_case(&line, case_no));
             drop(rt);
             out
         });
